@@ -904,6 +904,14 @@ def jobs_C13(rng, tier):
         xs = [abs(x) for x in gen.stream(rng, "level", rng.choice([60, 400, 2000]), 4)]
         js.append(FpTrack(mk("wroll", ECHO, []), xs, 1e-5, max(float(max(xs) - min(xs)), 1 / 64), fam="level"))   # scale: the spread
     js += long_level_jobs(rng, tier)
+    # the two scale-free rolling views at the ends of the f64 range (2^+-600, 2^520): the definition (peak - x)/peak and
+    # ln(x_t/x_(t-1)) do not care about the unit; an implementation that forms products of two values does (wave-9 seed C13i:
+    # Drawdown compared declines by cross-multiplication, which overflows to inf > inf = false above 1.3e154)
+    for nm in ("drawdown", "lnret"):
+        for _ in range(scale_n(tier, 6, 30)):
+            unit = F(2) ** rng.choice([600, -600, 520, 900, -900])
+            xs = [x * unit for x in gen.stream(rng, rng.choice(["dyadic8", "rampdown", "sawtooth", "spike"]), 30, positive=True)]
+            js.append(SpecEq(mk(nm, ECHO, []), xs, mode="f", rel=1e-7))
     return js
 
 
@@ -1339,6 +1347,11 @@ def jobs_C16(rng, tier):
             if sk in ("cog", "roc"):
                 sk = dict(cog=float(n), roc=1e5)[sk]
             js.append(FpTrack(e, xs, 1e-6, sk, fam="tiny"))
+            if nm in ("sma", "cum", "min", "max", "hln", "roc", "bent", "wroll", "drawdown", "lnret"):
+                # ... and must equal the DEFINITION evaluated in f64 (wave-9 seed C16i: Sma rounded its running sum to a 2^-40 grid
+                # with T::round, which the exact run of the same code does as well -- f64 and exact run then agree with each other
+                # and both disagree with the mean)
+                js.append(SpecEq(e, xs, mode="f", rel=1e-6, scale=float(max(abs(x) for x in xs)) if nm in ("sma", "cum", "min", "max", "wroll") else 1))
     # long CONSTANT streams: the exact answer is known in closed form, so only the f64 run is needed (10^6 values)
     for nm in ("wroll", "drawdown", "lnret"):
         for it in range(scale_n(tier, 2, 6)):
